@@ -89,9 +89,22 @@ class C14(Prop):
             rc, lines = dbopen("mem", qs, tag="c14")
             runs.append((f"in-memory build {i}", lines))
         xdg = SCR / "xdg-c14"
-        shutil.rmtree(xdg, ignore_errors=True)
-        rc, lines = dbopen("disk", qs, xdg=xdg, tag="c14")
-        runs.append(("first on-disk build", lines))
+        # several FRESH on-disk builds (a schedule-dependent order shows only now and then); many
+        # more when the extracted knobs say that some writer is not single-threaded, i.e. when the
+        # theorem `C14_one_thread` no longer holds and a concrete query is being searched for
+        fresh = 3 if tier == "quick" else 12
+        try:
+            knobs = (C.LEAN / "Anything" / "Generated" / "DbConsts.lean").read_text()
+            import re as _re
+            w = _re.search(r"def writers : List \(Option Nat\) := \[(.*?)\]", knobs)
+            if not w or any(x.strip() != "some 1" for x in w.group(1).split(",")):
+                fresh = 24
+        except OSError:
+            fresh = 24
+        for k in range(fresh):
+            shutil.rmtree(xdg, ignore_errors=True)
+            rc, lines = dbopen("disk", qs, xdg=xdg, tag="c14")
+            runs.append((f"fresh on-disk build {k}", lines))
         for i in range(2):
             rc, lines = dbopen("disk", qs, xdg=xdg, tag="c14")
             runs.append((f"reopened on-disk {i}", lines))
@@ -460,6 +473,24 @@ class C17(Prop):
         for a in (0, 1, -1, 2 ** 32 - 1, 2 ** 32, 2 ** 32 + 1, 2 ** 64, -2 ** 64, 2 ** 31, 23, 24, 255, 256, 65535, 65536, 2 ** 96 - 1):
             out.append(Case(f"cbor rat {a}/1", "limb-edges", f"{a}"))
             out.append(Case(f"cbor rat 1/{abs(a) + 1}", "limb-edges", f"1/{abs(a) + 1}"))
+        # where the CBOR length header changes shape: arrays of 23 / 24 / 25 and 255 / 256 / 257 limbs
+        # (a limb is 32 bits), maps of 23 / 24 / 25 and more units, powers and prefixes at the i32 ends
+        for limbs in (22, 23, 24, 25, 26, 255, 256, 257, 300):
+            for a in (2 ** (32 * limbs) - 1, 2 ** (32 * limbs), -(2 ** (32 * limbs)) - 12345, 2 ** (32 * limbs - 1)):
+                out.append(Case(f"cbor rat {a}/1", "limb-edges", f"±2^{32 * limbs}…"))
+                out.append(Case(f"cbor rat 7/{abs(a) + 2}", "limb-edges", f"7/(2^{32 * limbs}…)"))
+        for size in (22, 23, 24, 25, 26, 40, len(keys)):
+            for rep in range(3):
+                ks = list(keys)
+                for i in range(len(ks) - 1, 0, -1):
+                    j = rng.below(i + 1)
+                    ks[i], ks[j] = ks[j], ks[i]
+                u = ",".join(f"{k}:{rng.choice([-3, -1, 1, 2, 24, -25])}:{rng.choice([-24, -3, 0, 3, 24])}" for k in ks[:size])
+                out.append(Case(f"cbor unit {u}", "big-compound", f"{size} units"))
+        for k in ("Meter", "Second", f"D{ids[0]}", f"D{ids[-1]}"):
+            for p in (2 ** 31 - 1, -(2 ** 31), 2 ** 31 - 2, -(2 ** 31) + 1, 2 ** 16, -(2 ** 16) - 1, 2 ** 24, 2 ** 8, -(2 ** 8) - 1):
+                for x in (0, 2 ** 31 - 1, -(2 ** 31)):
+                    out.append(Case(f"cbor unit {k}:{p}:{x}", "state-edges", f"{k}^{p} prefix {x}"))
         n = 1500 if tier == "quick" else 40000
         for _ in range(n):
             a = rng.range(-2 ** rng.range(0, 300), 2 ** rng.range(0, 300))
@@ -477,6 +508,30 @@ class C17(Prop):
                 continue
             r = f["raw"]
             out.append(Case(f"cbor const {r[5]} {r[1]} {r[4]} {r[2]} {r[3]}", "shipped-constant", f["desc"]))
+        # constants (not only the shipped ones) with every kind of unit: none, one unit, compounds,
+        # and compounds whose base dimensions cancel while the unit is not empty (`km/ft`, `min/s`)
+        fixed = ["-", "Meter:1:0", "Meter:1:3,D" + str(ids[0]) + ":-1:0", "Second:-1:0", "Meter:1:3,Meter:-1:0"]
+        from .props_units import vocab
+        v = vocab()
+        classes = [ws for ws in v.by_dims.values() if len({w[2] for w in ws if not w[6]}) >= 2]
+        for _ in range(300 if tier == "quick" else 5000):
+            if rng.chance(1, 2):
+                ws = [w for w in rng.choice(classes) if not w[6]]
+                a = rng.choice(ws)
+                b = rng.choice([w for w in ws if w[2] != a[2]])
+                pw = rng.choice([1, 1, 2, -1])
+                u = f"{a[2]}:{pw}:{a[3]},{b[2]}:{-pw}:{b[3]}"
+            else:
+                d = {}
+                for _ in range(rng.range(0, 4)):
+                    d[rng.choice(keys)] = (rng.choice([-3, -2, -1, 1, 2, 3]), rng.choice([-24, -3, 0, 3, 24]))
+                u = ",".join(f"{k}:{p_}:{x}" for k, (p_, x) in d.items()) or "-"
+            val = f"{rng.range(-10 ** 6, 10 ** 6)}/{rng.range(1, 1000)}"
+            src_ = rng.choice(["-", "0", "7", "4294967296"])
+            toks = ";".join(C.hexs(w) for w in rng.choice([["speed", "light"], ["x"], ["Ünï", "cødé"], []])) or "-"
+            out.append(Case(f"cbor const {src_} {toks} {C.hexs('a constant')} {val} {u}", "random-constant", f"constant with unit {u}"))
+        for u in fixed:
+            out.append(Case(f"cbor const - {C.hexs('w')} {C.hexs('d')} 3/1 {u}", "random-constant", f"constant with unit {u}"))
         return out
 
 
@@ -532,10 +587,10 @@ class C17(Prop):
 
 
 class C18(Prop):
-    """Theorems (Props/C18.lean): values do not depend on the describe flag; no log without it; the log appends, independent of the incoming log; every entry is a successful lookup paired with that constant's description; the value depends on the database only through the reported phrases (and each is needed); order (right operand first); results of several queries = results in isolation, also permuted. Correspondence: expressions mixing literals and facts with and without descriptions in varying orders; isolation scenario (fresh instance per phrase vs shared instance in several orders, case variants, capitalised operators). Unified language (Props/UnifiedQuery.lean): `C18_query_unified` — same values with and without describe and the exact log for quantity expressions with fact leaves."""
+    """Theorems (Props/C18.lean): values do not depend on the describe flag; no log without it; the log appends, independent of the incoming log; every entry is a successful lookup paired with that constant's description; the value depends on the database only through the reported phrases (and each is needed); order (right operand first); results of several queries = results in isolation, also permuted. Correspondence: expressions mixing literals and facts with and without descriptions in varying orders; isolation scenario (fresh instance per phrase vs shared instance in several orders, case variants, capitalised operators). Unified language (Props/UnifiedQuery.lean): `C18_query_unified` — same values with and without describe and the exact log for quantity expressions with fact leaves. Full language (Props/FullQuery.lean): `C18_query_full` — describe does not change the value and the log is the lookups in evaluation order, for the whole language."""
     id = "C18"
     module = "Anything.Props.C18"
-    extra_modules = ["Anything.Props.FactQuery", "Anything.Props.UnifiedQuery"]
+    extra_modules = ["Anything.Props.FactQuery", "Anything.Props.UnifiedQuery", "Anything.Props.FullQuery"]
     needs_tables = True
     trusted = ["lookups are answered by the real database and handed to the model as a table"]
 
